@@ -288,7 +288,7 @@ pub fn run(s: &Session) {
     s.foreach("offset-family", fam, true, check_seq);
     s.forall(
         "mixed-sequences",
-        s.pick(20_000, 400_000),
+        s.pick(150_000, 4_000_000),
         || prop::collection::vec(item(), 0..64),
         check_seq,
     );
